@@ -117,13 +117,16 @@ def main():
         return run.finish()
     import concurrent.futures as cf
     with cf.ThreadPoolExecutor(2) as ex:
-        f1 = ex.submit(tlc.run_tlc, 'MC_SpinePaths', 'MC_SpinePaths_q5.cfg' if quick else 'MC_SpinePaths_t.cfg', workers=8, timeout=3000,
-                       label='MC_SpinePaths(full alphabet)')
-        f2 = ex.submit(tlc.run_tlc, 'MC_SpinePaths', 'MC_SpinePaths_lean7.cfg' if quick else 'MC_SpinePaths_lean.cfg', workers=8, timeout=3000,
+        f1 = ex.submit(tlc.run_tlc, 'MC_SpinePaths', 'MC_SpinePaths_q5.cfg', workers=8, timeout=3000,
+                       label='MC_SpinePaths(full alphabet, 5 lines, behaviours emitted)')
+        f2 = ex.submit(tlc.run_tlc, 'MC_SpinePaths', 'MC_SpinePaths_lean7.cfg' if quick else 'MC_SpinePaths_lean.cfg', workers=8, timeout=5000,
                        label='MC_SpinePaths(lean: deep operator layouts)')
         mc, mc2 = f1.result(), f2.result()
     run.add_tlc(mc)
     run.add_tlc(mc2)
+    if not quick:
+        # one line deeper with the full alphabet: invariants only (2.8 M states); its behaviours are not replayed
+        run.add_tlc(tlc.run_tlc('MC_SpinePaths', 'MC_SpinePaths_t.cfg', workers=16, timeout=5000, label='MC_SpinePaths(full alphabet, 6 lines, invariants only)', tag='NOVP'))
     lean = mc2.vp
     behs = mc.vp
     if not behs:
@@ -133,7 +136,7 @@ def main():
     closed = [b for b in behs if b['fed'][-1]['ev'] != 'surplus']
     take_closed = closed if len(closed) <= (9000 if quick else 60000) else rnd.sample(closed, 9000 if quick else 60000)
     take_rej = rejected if len(rejected) <= (1500 if quick else 8000) else rnd.sample(rejected, 1500 if quick else 8000)
-    take_lean = lean if len(lean) <= (25000 if quick else 120000) else rnd.sample(lean, 120000)
+    take_lean = lean if len(lean) <= (25000 if quick else 40000) else rnd.sample(lean, 40000)
     for b in take_lean:
         b['lean'] = True
     chosen = take_closed + take_rej + take_lean
